@@ -1129,7 +1129,14 @@ func (c *Compiler) writeCountBytes(node *node, v string, depth int) error {
 		c.wl("for ", nk, ", ", nx, " := range ", c.fmtVnb(node, v, depth), "{")
 		c.wl("_,_=", nk, ",", nx)
 		_ = c.writeCountBytes(node.mapk, nk, depth+1)
+		mvPtr := node.mapv.ptr && node.mapv.typ != typeBasic
+		if mvPtr {
+			c.wl("if ", nx, "!=nil{")
+		}
 		_ = c.writeCountBytes(node.mapv, nx, depth+1)
+		if mvPtr {
+			c.wl("}")
+		}
 		c.wl("}")
 	case typeSlice:
 		if node.typn == "[]byte" {
@@ -1143,11 +1150,22 @@ func (c *Compiler) writeCountBytes(node *node, v string, depth int) error {
 			} else {
 				c.wl(nv, " := &", c.fmtVd(node, v, depth), "[", ni, "]")
 			}
+			elPtr := node.slct.ptr && !c.isBuiltin(node.slct.typn)
+			if elPtr {
+				c.wl("if ", nv, "!=nil{")
+			}
 			_ = c.writeCountBytes(node.slct, nv, depth+1)
+			if elPtr {
+				c.wl("}")
+			}
 			c.wl("}")
 		}
 	case typeBasic:
-		if node.typu == "string" {
+		if node.typu == "string" && node.ptr {
+			c.wl("if ", v, "!=nil{")
+			c.wl("c+=len(*", v, ")")
+			c.wl("}")
+		} else if node.typu == "string" {
 			c.wl("c+=len(", c.fmtVnb(node, v, depth), ")")
 		}
 	}
